@@ -241,6 +241,118 @@ def rule_WM4(rep, prog, q, ex):
                 "_dispatch_lane_legacy_set_target_queue must only run as a barrier item on the queue being retargeted", sample={"uses": len(leg)})
 
 
+def rule_MP5(rep, prog, q):
+    rid = rep.rule("C03-MP5", "a blocked dispatch_sync caller handed a queue level is woken only when that level is not an inner queue; for inner queues the waiter is "
+                   "pushed down / redirected to the target so that it also acquires the levels below (down to the serial bottom)", floor=2)
+    wake_names = ("_dispatch_waiter_wake", "_dispatch_waiter_wake_wlh_anon")
+    for name in ("_dispatch_non_barrier_waiter_redirect_or_wake", "_dispatch_barrier_waiter_redirect_or_wake"):
+        fn = prog.fn(name)
+        rep.saw(fn)
+        wakes = calls_named(fn, wake_names)
+        tests = []
+        for i in fn.all_insts():
+            if i.op == "icmp" and i.d["pred"] in ("eq", "ne") and i.ops[1][0] == "c" and i.ops[1][1] == 0:
+                a = fn.inst(i.ops[0])
+                if a is not None and a.op == "and" and a.ops[1][0] == "c" and a.ops[1][1] == q.ROLE_MASK:
+                    tests.append(i)
+        if not wakes or not tests:
+            rep.unknown(rid, "anchor vanished in %s (wakes=%d role tests=%d)" % (name, len(wakes), len(tests)))
+            continue
+        res = paths.walk(fn, entry_point(fn), lambda i: i in wakes)
+        bad = []
+        for kind, inst, cx, path in res:
+            if kind != "hit":
+                continue
+            seen_inner = [t for t in tests if cx.truth.get(t.id) == (t.d["pred"] == "eq")]
+            seen_not = [t for t in tests if cx.truth.get(t.id) == (t.d["pred"] == "ne")]
+            if seen_inner or not seen_not:
+                bad.append(path)
+        rep.require(rid, not bad, wakes[0].loc, name, "inner-queue-waiter-woken:%s" % name,
+                    "%s wakes the sync waiter on a path where the queue was found to be an inner queue (or its role was not tested): the woken dispatch_sync "
+                    "caller runs without holding the queues below, so a serial bottom no longer serialises it (path %s)" % (name, bad[0] if bad else None),
+                    sample={"fn": name, "wake_paths": len([r for r in res if r[0] == "hit"])})
+        pushes = icalls_slot(prog, fn, "dq_push")
+        rep.require(rid, bool(pushes), fn.file, name, "inner-queue-no-push:%s" % name, "%s must push the waiter to the target queue for inner queues" % name,
+                    sample={"pushes": len(pushes)})
+
+
+def rule_TB6(rep, prog, q):
+    rid = rep.rule("C03-TB6", "role assignment: a lane whose target is not a root queue gets the INNER role (so hand-offs continue to its target); only lanes "
+                   "directly on a root queue are BASE", floor=1)
+    fn = prog.fn("_dispatch_lane_inherit_wlh_from_target")
+    rep.saw(fn)
+    k = consts.get(["_DISPATCH_QUEUE_ROOT_TYPEFLAG", "DISPATCH_QUEUE_ROLE_INNER", "DISPATCH_QUEUE_ROLE_BASE_ANON", "DISPATCH_QUEUE_ROLE_BASE_WLH"])
+    cx_ = [i for i in fn.all_insts() if i.op == "cmpxchg" and (prog.fields(i) & DQ_STATE)]
+    role_ops = []
+    for i in fn.all_insts():
+        if i.op == "or":
+            for a, b in ((i.ops[0], i.ops[1]), (i.ops[1], i.ops[0])):
+                x = fn.inst(a)
+                if x is not None and x.op == "and" and x.ops[1][0] == "c" and x.ops[1][1] == (q.ALL & ~q.ROLE_MASK):
+                    role_ops.append(b)
+    roottests = []
+    for i in fn.all_insts():
+        if i.op == "icmp" and i.d["pred"] in ("eq", "ne") and i.ops[1][0] == "c" and i.ops[1][1] == 0:
+            a = fn.inst(i.ops[0])
+            if a is not None and a.op == "and" and a.ops[1][0] == "c" and a.ops[1][1] == k["_DISPATCH_QUEUE_ROOT_TYPEFLAG"]:
+                roottests.append(i)
+    if not cx_ or not role_ops or not roottests:
+        rep.unknown(rid, "anchor vanished in _dispatch_lane_inherit_wlh_from_target")
+        return
+    res = paths.walk(fn, entry_point(fn), lambda i: i in cx_)
+    ok = True
+    n = 0
+    for kind, inst, c, path in res:
+        if kind != "hit":
+            continue
+        isroot = None
+        for t in roottests:
+            tv = c.truth.get(t.id)
+            if tv is not None:
+                isroot = tv == (t.d["pred"] == "ne")
+        from .C06 import const_set
+        for ro in role_ops:
+            vs = const_set(fn, c.resolve(ro))
+            n += 1
+            if vs is None or isroot is None:
+                ok = False
+            elif isroot is False and vs != {k["DISPATCH_QUEUE_ROLE_INNER"]}:
+                ok = False
+            elif isroot is True and not vs <= {k["DISPATCH_QUEUE_ROLE_BASE_ANON"], k["DISPATCH_QUEUE_ROLE_BASE_WLH"]}:
+                ok = False
+    rep.require(rid, ok and n > 0, fn.file + ":" + str(fn.d.get("line")), fn.name, "role-not-from-root-flag",
+                "_dispatch_lane_inherit_wlh_from_target assigns a BASE role to a lane whose target is not a root queue (or INNER to one on a root queue): "
+                "sync hand-offs stop at that lane instead of continuing to the (serial / workloop) target below", sample={"paths": n})
+
+
+def rule_MP7(rep, prog, q):
+    rid = rep.rule("C03-MP7", "the lane drain re-reads do_targetq before every item and leaves when the queue was retargeted (items queued after a retarget must "
+                   "run under the new target)", floor=1)
+    fn = prog.fn("_dispatch_lane_drain")
+    rep.saw(fn)
+    tl = [i for i in fn.all_insts() if i.op == "load" and "do_targetq" in prog.fields(i) and root_ptr(fn, i.d["ptr"]["base"]) == ("a", 0)]
+    first = [l for l in tl if l.block.id == 0]
+    cmp_ = [i for i in fn.all_insts() if i.op == "icmp" and i.d["pred"] in ("eq", "ne") and any(fn.inst(o) in first for o in i.ops) and
+            any(fn.inst(o) in tl and fn.inst(o) not in first for o in i.ops)]
+    rechecks = [fn.inst(o) for i in cmp_ for o in i.ops if fn.inst(o) in tl and fn.inst(o) not in first]
+    callouts = calls_named(fn, ("_dispatch_continuation_pop_inline", "_dispatch_continuation_redirect_push"))
+    if not callouts:
+        rep.unknown(rid, "anchor vanished in _dispatch_lane_drain (callouts=%d)" % len(callouts))
+        return
+    if not first or not rechecks:
+        rep.violation(rid, fn.file + ":" + str(fn.d.get("line")), fn.name, "drain-without-retarget-check",
+                      "_dispatch_lane_drain never compares the current do_targetq with the one it started under (entry load=%d, re-checks=%d): after a "
+                      "retarget the old drainer keeps running items outside the new (serial) target" % (len(first), len(rechecks)))
+        return
+    bad = []
+    for s in [entry_point(fn)] + callouts:
+        res = paths.walk(fn, s, lambda i: i in callouts, avoid=lambda i: i in rechecks)
+        bad += [r for r in res if r[0] == "hit"]
+    rep.require(rid, not bad, rechecks[0].loc, fn.name, "drain-without-retarget-check",
+                "_dispatch_lane_drain can start an item without comparing the current do_targetq with the one it started under: after a retarget the old "
+                "drainer keeps running items outside the new (serial) target", sample={"rechecks": len(rechecks), "callouts": len(callouts)})
+
+
 def run(rep, tier="quick", srcdir=None, only=None):
     prog, units = load(UNITS, tier, srcdir)
     rep.units = units
@@ -255,6 +367,12 @@ def run(rep, tier="quick", srcdir=None, only=None):
         rule_AI3(rep, prog, q, ex)
     if want("C03-WM4"):
         rule_WM4(rep, prog, q, ex)
+    if want("C03-MP5"):
+        rule_MP5(rep, prog, q)
+    if want("C03-TB6"):
+        rule_TB6(rep, prog, q)
+    if want("C03-MP7"):
+        rule_MP7(rep, prog, q)
 
 
 MANIFEST = {
